@@ -491,6 +491,7 @@ func init() {
 		ruleGoHandshake(r)
 		ruleOpenRelease(r)
 		ruleCloseMustCall(r)
+		ruleComponentClearsCache(r, "close-mustcall")
 		ruleFCCloseGuard(r)
 		ruleFCClient(r)
 	},
